@@ -702,6 +702,11 @@ func (s *Scheme) prepareSigning(ctx context.Context, membership *membership, par
 		return nil, err
 	}
 
+	// The signing instance must be fully set up before it becomes reachable by incoming messages
+	if err := signingProtocol.SetShareData(s.StoredData); err != nil {
+		return nil, err
+	}
+
 	broadcastParties := excludeUniversal(signers, s.SelfID)
 	rbc := s.RBF(func(digest string, sender uint16, msgRound uint8) {
 		payload := newRBCEncoding(digest, sender, msgRound)
@@ -740,7 +745,7 @@ func (s *Scheme) prepareSigning(ctx context.Context, membership *membership, par
 		panic("Programming error: we shouldn't have gotten to a situation with two concurrent signing with the same topic")
 	}
 
-	return signingProtocol, signingProtocol.SetShareData(s.StoredData)
+	return signingProtocol, nil
 }
 
 func (s *Scheme) initializeDKG(dkg KeyGenerator, threshold int, members []UniversalID, parties []PartyID, membership *membership) error {
